@@ -33,6 +33,58 @@ def mk(meth, iters, scaled=False):
     return o
 
 
+def mk_multi(meth, iters):
+    """Two stages cloned from one template; the template parameter a has its own value in each clone
+    (p: value in stage 1, q: value in stage 2)."""
+    from rockit import Stage
+    o = P()
+    ocp = Ocp(); o.ocp = ocp
+    tmpl = Stage(T=1)
+    o.x = tmpl.state(); o.u = tmpl.control(); o.a = tmpl.parameter()
+    tmpl.set_der(o.x, -o.x + o.u + o.a)
+    tmpl.add_objective(tmpl.at_tf((o.x - 2 * o.a) ** 2) + tmpl.sum(o.u ** 2) + tmpl.integral((o.x - 1) ** 2))
+    tmpl.subject_to(o.u <= 5)
+    tmpl.method({'MS': lambda: MultipleShooting(N=N, intg='rk'), 'SS': lambda: SingleShooting(N=N, intg='rk'),
+                 'DC': lambda: DirectCollocation(N=N, M=2, degree=2)}[meth]())
+    o.s1 = ocp.stage(tmpl, t0=0); o.s2 = ocp.stage(tmpl, t0=1)
+    ocp.subject_to(o.s1.at_t0(o.x) == 0.5)
+    ocp.subject_to(o.s2.at_t0(o.x) == o.s1.at_tf(o.x))
+    ocp.solver('ipopt', opts(iters))
+    return o
+
+
+def replay_multi(rec):
+    sc = rec['sc']; data = rec['data']
+    args = sorted(sc['args'])
+    try:
+        a = quiet(mk_multi, sc['meth'], sc['iters'])
+        quiet(a.s1.set_value, a.a, sc['pre']['p']); quiet(a.s2.set_value, a.a, sc['pre']['q'])
+        ocp = a.ocp
+        res_of = lambda o: [o.s1.sample(o.x, grid='control')[1], o.s2.sample(o.x, grid='control')[1], o.s2.sample(o.u, grid='control-')[1]]
+        argexpr = {'p': lambda: a.s1.value(a.a), 'q': lambda: a.s2.value(a.a)}
+        argl = [argexpr[n]() for n in args]; resl = res_of(a)
+        f = quiet(lambda: ocp.to_function('f', argl, resl))
+        if sc['post'] == 'p': quiet(a.s1.set_value, a.a, 3)
+        elif sc['post'] == 'q': quiet(a.s2.set_value, a.a, 3)
+        if sc.get('remake'): f = quiet(lambda: ocp.to_function('f', argl, resl))
+        ra = quiet(lambda: f(*[sc['vals'][n] for n in args]))
+        ra = [np.array(r).reshape(-1) for r in ra]
+        b = quiet(mk_multi, sc['meth'], sc['iters'])
+        quiet(b.s1.set_value, b.a, data['p']); quiet(b.s2.set_value, b.a, data['q'])
+        try:
+            sol = quiet(b.ocp.solve)
+        except Exception:
+            sol = b.ocp.non_converged_solution
+        rb = [np.array(sol(st).sample(b.x, grid='control')[1]).reshape(-1) for st in (b.s1, b.s2)] + [np.array(sol(b.s2).sample(b.u, grid='control-')[1]).reshape(-1)]
+        res = []
+        for name, x, y in zip(('x1', 'x2', 'u2'), ra, rb):
+            ok = len(x) == len(y) and np.allclose(x, y, rtol=1e-6, atol=1e-6)
+            res.append(('C19.a:multi:' + name, 'ok' if ok else 'mismatch', 'to_function %s vs imperative %s (data %s)' % (np.round(x, 6).tolist(), np.round(y, 6).tolist(), data)))
+        return {'results': res, 'error': None}
+    except Exception as e:
+        return {'results': [('C19.a:multi', 'error', '%s: %s' % (type(e).__name__, (str(e).splitlines() or [''])[-1][:200]))], 'error': traceback.format_exc()}
+
+
 def ramp(g, n):
     # a guess that differs from node to node
     return [g + 0.5 * k for k in range(n)]
@@ -50,6 +102,7 @@ def results_of(o):
 
 def replay(rec):
     sc = rec['sc']; data = rec['data']
+    if sc.get('multi'): return replay_multi(rec)
     args = sorted(sc['args'])
     try:
         a = quiet(mk, sc['meth'], sc['iters'], sc.get('scaled', False))
@@ -59,11 +112,14 @@ def replay(rec):
         argexpr = {'p': lambda: ocp.value(a.p), 'q': lambda: ocp.value(a.q),
                    'gx': (lambda: ocp.value(ocp.at_t0(a.x))) if ss else (lambda: ocp.sample(a.x, grid='control')[1]),
                    'gu': lambda: ocp.sample(a.u, grid='control-')[1]}
-        f = quiet(lambda: ocp.to_function('f', [argexpr[n]() for n in args], results_of(a)))
+        argl = [argexpr[n]() for n in args]; resl = results_of(a)
+        f = quiet(lambda: ocp.to_function('f', argl, resl))
         # a later imperative change must not leak into the function object
         if sc['post'] == 'p': quiet(ocp.set_value, a.p, 3)
         elif sc['post'] == 'q': quiet(ocp.set_value, a.q, 3)
-        elif sc['post'] == 'gx': quiet(ocp.set_initial, a.x, 3)
+        elif sc['post'] == 'gx': quiet(ocp.set_initial, a.x, ca.DM(ramp(3, N + 1)).T)
+        # ... but a function made afterwards (same name, same expression objects) works on the values current then
+        if sc.get('remake'): f = quiet(lambda: ocp.to_function('f', argl, resl))
         argval = {'p': lambda: sc['vals']['p'], 'q': lambda: sc['vals']['q'],
                   'gx': (lambda: ramp(sc['vals']['gx'], N + 1)[0]) if ss else (lambda: ca.DM(ramp(sc['vals']['gx'], N + 1)).T),
                   'gu': lambda: ca.DM.ones(1, N) * sc['vals']['gu']}
